@@ -16,7 +16,7 @@ ASSUMPTIONS = [
     'degree reduction uses the default penalty',
 ]
 OUTSIDE = ['objectives with more than 4 monomials', 'n + ancillas > 9', 'symbolic constraint polynomials (C02/C03 cover those)', 'different weights per constraint', 'float rounding']
-BOUNDS = {'quick': {'forms': ['model itself', 'to_qubo', 'to_quso', 'solve_bruteforce (n+ancillas<=5)'], 'menus': 6},
+BOUNDS = {'quick': {'forms': ['model itself', 'to_qubo', 'to_quso', 'solve_bruteforce (n+ancillas<=5)'], 'menus': '10 (comparison constraints, log_trick both ways, two- and three-input logical constraints)'},
           'thorough': {'forms': ['model itself', 'to_qubo', 'to_quso', 'to_pubo', 'to_puso', 'solve_bruteforce'], 'menus': 'all'}}
 
 from .c06 import GATES, truth
